@@ -19,7 +19,7 @@ func init() {
 	})
 	register(&propDef{
 		id:      "C35",
-		explain: "Structural necessary conditions of 'temporary files of a parsed multipart form never outlive the request': (R1) a *multipart.Form produced by ReadForm / readMultipartForm is, on every path from the producing call to a return, stored into Request.multipartForm (where Reset finds it), returned to the caller, explicitly removed with RemoveAll, or the producing call reported an error; (R2) Request.multipartForm is set to nil only after RemoveAll on the non-nil branch; (R3) Request.Reset and RequestCtx.reset clear multipartForm on every path (through the remover), and every serve-loop iteration that ran a handler passes Request.Reset before the next request. (R4) a form (or the nil of a failed parse) is stored into Request.multipartForm only where the slot is known to be empty on that path - the field was tested and found nil, or a routine that removes the files and clears the slot ran before; routines that receive the connection reader fill a request emptied by the read entry points (checked: Read/ReadLimitBody clear on every path) or by the serve loop (R3); a ctx goes back to the pool only after RequestCtx.reset; (R5) the serve function leaves, on every return, with its ctx released or handed to the hijack goroutine (decided with the premise, itself checked, that errHijacked is handed out only after that goroutine was started), and the hijack goroutine resets the request it took over on every path, by releaseCtx or Request.Reset. (R7) a file part is created with a Content-Disposition computed from the key the file is stored under and its current Filename; (R8) hijackConnHandler removes the request's uploaded files on every path to the close of the connection; (R6) in WriteMultipartForm every iteration of a loop over the form's values or files passes a part-creating call of the multipart writer before the loop header is reached again - no entry is skipped, whatever it holds. Not decided: form content round trip beyond that, files moved away by user code.",
+		explain: "Structural necessary conditions of 'temporary files of a parsed multipart form never outlive the request': (R1) a *multipart.Form produced by ReadForm / readMultipartForm is, on every path from the producing call to a return, stored into Request.multipartForm (where Reset finds it), returned to the caller, explicitly removed with RemoveAll, or the producing call reported an error; (R2) Request.multipartForm is set to nil only after RemoveAll on the non-nil branch; (R3) Request.Reset and RequestCtx.reset clear multipartForm on every path (through the remover), and every serve-loop iteration that ran a handler passes Request.Reset before the next request. (R4) a form (or the nil of a failed parse) is stored into Request.multipartForm only where the slot is known to be empty on that path - the field was tested and found nil, or a routine that removes the files and clears the slot ran before; routines that receive the connection reader fill a request emptied by the read entry points (checked: Read/ReadLimitBody clear on every path) or by the serve loop (R3); a ctx goes back to the pool only after RequestCtx.reset; (R5) the serve function leaves, on every return, with its ctx released or handed to the hijack goroutine (decided with the premise, itself checked, that errHijacked is handed out only after that goroutine was started), and the hijack goroutine resets the request it took over on every path, by releaseCtx or Request.Reset. (R9) Request.CopyTo gives the copy the serialised form on the branch that found the request to hold only a pre-parsed form; (R7) a file part is created with a Content-Disposition computed from the key the file is stored under and its current Filename; (R8) hijackConnHandler removes the request's uploaded files on every path to the close of the connection; (R6) in WriteMultipartForm every iteration of a loop over the form's values or files passes a part-creating call of the multipart writer before the loop header is reached again - no entry is skipped, whatever it holds. Not decided: form content round trip beyond that, files moved away by user code.",
 		run:     runC35,
 	})
 }
@@ -246,6 +246,7 @@ func runC35(p *Prog, r *Report) {
 	everyEntryGetsItsPart(p, r)
 	filePartNamedByKey(p, r)
 	uploadsRemovedBeforeClose(p, r)
+	preparsedFormSurvivesCopy(p, r)
 	// R1: producers of *multipart.Form
 	isFormProducer := func(c *ssa.Call) bool {
 		f := c.Call.StaticCallee()
@@ -1019,4 +1020,39 @@ func uploadsRemovedBeforeClose(p *Prog, r *Report) {
 		}
 	}
 	r.Floor("R8", "closes of the hijacked connection in hijackConnHandler", n, 1)
+}
+
+// preparsedFormSurvivesCopy (C35.R9): a request that was read with its multipart form pre-parsed keeps its data in the
+// form, not in the body. Request.CopyTo (and everything built on it: RequestCtx.Init) carries that data over: it asks
+// whether the request holds only a form and, on that branch, gives the destination the form's serialisation.
+func preparsedFormSurvivesCopy(p *Prog, r *Report) {
+	fn := p.Func("(*Request).CopyTo")
+	marshal := p.Func("marshalMultipartForm")
+	if fn == nil || marshal == nil {
+		r.Undecided("R9", "(*Request).CopyTo / marshalMultipartForm", "not found")
+		return
+	}
+	var call ssa.Instruction
+	allCalls(fn, func(b *ssa.BasicBlock, c ssa.CallInstruction) {
+		if c.Common().StaticCallee() == marshal {
+			call = c
+		}
+	})
+	underForm := false
+	if call != nil {
+		for _, g := range guardsOfDepth(call.Block(), 2) {
+			if strings.Contains(g.Atom, "multipartForm") && g.Pol {
+				underForm = true
+			}
+		}
+		for _, pr := range call.Block().Preds {
+			if iff, ok := pr.Instrs[len(pr.Instrs)-1].(*ssa.If); ok && pr.Succs[0] == call.Block() {
+				if hasAtomContaining(condAtomsDepth(iff.Cond, 2), "multipartForm") || hasAtomContaining(condAtomsDepth(iff.Cond, 2), "onlyMultipartForm") {
+					underForm = true
+				}
+			}
+		}
+	}
+	r.Check("R9", "Request.CopyTo gives the copy the serialised form when the request holds only a pre-parsed form", call != nil && underForm, p.Pos(fn.Pos()),
+		"CopyTo copies the body bytes only: a request whose multipart body was consumed into req.multipartForm when it was read (the server's pre-parse) is copied without its data - the copy's MultipartForm() fails with 'form size must be greater than 0' and FormValue returns nothing")
 }
